@@ -39,7 +39,8 @@ abbrev Parser (α : Type) := α → Option α
 inductive SeqErr where
   | item (i : Nat)      -- `ParseError(item=i)` through `context.handle_error` (rule.py:1973)
   | coerce              -- the origin transform failed (rule.py:1700-1707)
-  | rawTypeError        -- only in the pre-fix model: `value[i]` on a set (rule.py:1964)
+  | rawTypeError        -- only in the pre-fix model: `value[i]` on a set
+  | constraint          -- a validator of the container itself failed after the loop (`Rule.parse`, ConstraintError)
   deriving DecidableEq, Repr
 
 /-- `_parse_seq_args` (rule.py:1954-1974): `for i, item in enumerate(value)`. -/
@@ -92,6 +93,19 @@ def parseSeqRule {α : Type} (W : World α) (k : SeqKind) (pol : Policy) (p : Pa
   match W.asSeq k v with
   | none => .error .coerce
   | some xs => (parseSeq pol p xs).map (W.mkSeq k)
+
+/-- `Rule.parse` of a *constrained* sequence type (`Rule.annotate(list, int, constraints={'min_length': 3})`):
+the validators of the container (`cls.__validators__`, rule.py `Rule.parse` after the args parser) run on what
+the policy loop produced — for `preserve` that is the list WITH the offenders in place.  `cons` is the
+conjunction of those validators, abstract. -/
+def parseSeqRuleC {α : Type} (W : World α) (k : SeqKind) (pol : Policy) (p : Parser α) (cons : List α → Bool) (v : α) :
+    Except SeqErr α :=
+  match W.asSeq k v with
+  | none => .error .coerce
+  | some xs =>
+    match parseSeq pol p xs with
+    | .error e => .error e
+    | .ok rs => if cons rs then .ok (W.mkSeq k rs) else .error .constraint
 
 def parseSeqRuleLegacy {α : Type} (W : World α) (k : SeqKind) (pol : Policy) (p : Parser α) (v : α) : Except SeqErr α :=
   match W.asSeq k v with
@@ -152,8 +166,9 @@ def parseTupleFixed {α : Type} (pol : Policy) (ps : List (Parser α)) (extra : 
 
 inductive MapErr (α : Type) where
   | key (k : α)          -- ParseError(item=f"{_key}<key>")  rule.py:1999-2010
-  | value (k : α)        -- ParseError(item=key)             rule.py:2019-2030
+  | value (k : α)        -- ParseError(item=key)
   | coerce
+  | constraint           -- a validator of the mapping itself failed after the loop
   deriving DecidableEq, Repr
 
 /-- `_parse_map_args` (rule.py:1992-2033); the result is the insertion log of `result[key] = val`.
@@ -190,6 +205,16 @@ def parseMapRule {α : Type} (W : World α) (pk pv : Policy) (kp : Parser α) (v
   match W.asMap v with
   | none => .error .coerce
   | some kvs => (parseMap pk pv kp vp kvs).map W.mkMap
+
+/-- `Rule.parse` of a constrained mapping type: validators on the log the policy loop produced -/
+def parseMapRuleC {α : Type} (W : World α) (pk pv : Policy) (kp : Parser α) (vp : Option (Parser α))
+    (cons : List (α × α) → Bool) (v : α) : Except (MapErr α) α :=
+  match W.asMap v with
+  | none => .error .coerce
+  | some kvs =>
+    match parseMap pk pv kp vp kvs with
+    | .error e => .error e
+    | .ok rs => if cons rs then .ok (W.mkMap rs) else .error .constraint
 
 /-! ### data-class fields, extra keys -/
 
@@ -284,6 +309,32 @@ def parseValueAbs {κ α : Type} (inv : Policy) (f : Field κ α) (x : α) : Fie
 (the default of an excluded value was indistinguishable from an accepted value). -/
 def fieldStep {κ α : Type} (fix : Bool) (inv : Policy) (f : Field κ α) (x : α) : FieldOut α :=
   if fix then parseValueAbs inv f x else parseValue inv f x
+
+/-- the converter of a field declared with `Field(discriminator=…)` (field.py `parse_value`, the branch before
+the conversion): a non-mapping input goes through `to_dict`, the discriminator value selects the branch type,
+the value is converted to that type.  Any of the three failing is the converter rejecting the value — after
+`fixes/C11-discriminator-policy.patch` all three reach the same `on_error` / `invalid_values` handling
+(`_invalid_value`), so a discriminated field is an ordinary `Field` whose `parse` is this function. -/
+def discParser {α τ : Type} (toDict : α → Option α) (tag : α → Option τ) (branch : τ → Option (Parser α)) : Parser α :=
+  fun x => match toDict x with
+    | none => none
+    | some d => match tag d with
+      | none => none
+      | some t => match branch t with
+        | none => none                                -- DiscriminatorMismatchError
+        | some p => p d
+
+/-- the code before that patch: a failing `to_dict` or a discriminator value that selects no branch called
+`context.handle_error(...)` and never read the policy. -/
+def parseValueDiscLegacy {κ α τ : Type} (inv : Policy) (f : Field κ α) (toDict : α → Option α) (tag : α → Option τ)
+    (branch : τ → Option (Parser α)) (x : α) : FieldOut α :=
+  match toDict x with
+  | none => .raise
+  | some d => match tag d with
+    | none => .raise
+    | some t => match branch t with
+      | none => .raise
+      | some p => parseValue inv { f with parse := p } d
 
 /-- `options.addition` as `parse_addition` reads it. -/
 inductive Addition (α : Type) where
@@ -673,6 +724,21 @@ def mapExcluded {α : Type} (pk pv : Policy) (kp : Parser α) (vp : Option (Pars
   (pk == .exclude && Offending kp kv.1) ||
   (pv == .exclude && (!Offending kp kv.1 || pk == .preserve) &&
     (match vp with | some q => Offending q kv.2 | none => false))
+
+/-- an entry whose VALUE a `preserve` policy hands back: the key survives (converts, not preserved itself)
+and the value is offending -/
+def valuePreserved {α : Type} (kp : Parser α) (vp : Option (Parser α)) (kv : α × α) : Bool :=
+  !Offending kp kv.1 && (match vp with | some q => Offending q kv.2 | none => false)
+
+/-- put the entries with an offending value back — converted key, value unchanged — at their positions into
+`rs`, the strict result of the mapping without them -/
+def putBackVals {α : Type} (kp : Parser α) (vp : Option (Parser α)) : List (α × α) → List (α × α) → List (α × α)
+  | [], _ => []
+  | kv :: rest, rs =>
+    if valuePreserved kp vp kv then ((kp kv.1).getD kv.1, kv.2) :: putBackVals kp vp rest rs
+    else match rs with
+      | r :: rs' => r :: putBackVals kp vp rest rs'
+      | [] => []
 
 /-- `preserve` read as `throw` over the converter that hands offenders back unchanged -/
 def Policy.strictified : Policy → Policy
